@@ -99,6 +99,35 @@ class Repo:
                 if fn.endswith('.py'):
                     self._load_py(rel)
         self._pyx_loaded = False
+        self.renames = {}
+        if os.environ.get('VERIF_NO_RENAME') != '1':
+            for rel in list(self.modules):
+                self._normalise(rel)
+
+    def _normalise(self, rel):
+        """Map merely-renamed locals back to the names of the reference
+        snapshot (see sa/rename.py)."""
+        from . import rename
+        ref_path = os.path.join(rename.REFERENCE, rel)
+        if not os.path.exists(ref_path):
+            return
+        try:
+            with open(ref_path, encoding='utf-8') as f:
+                rsrc = f.read()
+            cur = self.modules[rel]
+            if rsrc == cur.src:
+                return
+            if rel.endswith('.pyx'):
+                from . import pyxfront
+                rtree = pyxfront.parse_pyx(ref_path, rel)
+            else:
+                rtree = ast.parse(rsrc)
+            rmod = Module(rel, rsrc, rtree, cur.kind)
+            applied = rename.normalise_module(cur, rmod)
+            if applied:
+                self.renames[rel] = applied
+        except Exception as e:       # never let normalisation break a check
+            self.errors.append((rel + ' (rename normalisation)', repr(e)))
 
     def _load_py(self, rel):
         path = os.path.join(self.root, rel)
@@ -131,6 +160,8 @@ class Repo:
                 continue
             self.modules[rel] = Module(rel, src, tree, 'pyx')
             self.units.append(rel)
+            if os.environ.get('VERIF_NO_RENAME') != '1':
+                self._normalise(rel)
 
     def mod(self, rel):
         if rel.endswith('.pyx'):
